@@ -604,11 +604,6 @@ impl<C: KeyColl> KeyExec<C> {
                     KOp::Fleb { mode, .. } => {
                         let f = move |s: KKey| -> Ordering {
                             cb::hit(CbKind::KeyComparator, s.arg(), (k, 0, serial));
-                            if s.exp <= t {
-                                // a sweep-line comparator is only meaningful for keys that are still
-                                // live (C20): on an ended key its answer is arbitrary
-                                return if (s.k ^ t) & 2 == 0 { Ordering::Greater } else { Ordering::Less };
-                            }
                             match mode {
                                 0 => s.k.cmp(&k),
                                 1 => {
